@@ -33,7 +33,8 @@ impl Flag {
         if !guard.panicking && thread::panicking() {
             let is_canceled = if crate::coroutine_impl::is_coroutine() {
                 let cancel = crate::coroutine_impl::current_cancel_data();
-                cancel.is_canceled()
+                // a pending cancel alone doesn't make a user panic harmless
+                cancel.is_unwinding()
             } else {
                 false
             };
